@@ -567,11 +567,21 @@ class FormulaEngine3Phase(Generic[QuantityT]):
         phase_2_rx = self._streams[1].new_receiver()
         phase_3_rx = self._streams[2].new_receiver()
 
+        receivers = (phase_1_rx, phase_2_rx, phase_3_rx)
+
         while True:
             try:
-                phase_1 = await phase_1_rx.receive()
-                phase_2 = await phase_2_rx.receive()
-                phase_3 = await phase_3_rx.receive()
+                phases = [await receiver.receive() for receiver in receivers]
+                # The per-phase streams can start at different times, so skip the older
+                # samples until the samples of all phases are for the same timestamp.
+                while True:
+                    latest = max(phase.timestamp for phase in phases)
+                    if all(phase.timestamp == latest for phase in phases):
+                        break
+                    for idx, receiver in enumerate(receivers):
+                        if phases[idx].timestamp < latest:
+                            phases[idx] = await receiver.receive()
+                phase_1, phase_2, phase_3 = phases
                 msg = Sample3Phase(
                     phase_1.timestamp,
                     phase_1.value,
